@@ -195,7 +195,12 @@ func (c *conn) OnClosed(fn func()) (unsub func(), _ bool) {
 	// Add listener
 	id := c.addClosed(fn1)
 	if id == 0 {
-		return nil, false
+		// Disarm the listener, it may have been added before the connection was closed.
+		// If it has been called already, report it as added.
+		if disarmed := called.CompareAndSwap(false, true); disarmed {
+			return nil, false
+		}
+		return func() {}, true
 	}
 
 	// Return unsubscribe
